@@ -374,13 +374,13 @@ func (x *Exec) evalLoc(e *Env, le Expr, cl *Clause) (out []Loc) {
 			switch v.Fn {
 			case "content":
 				m := e.eval(v.Args[0])
-				_, vt, ok := mapKV(m.T)
+				kt, vt, ok := mapKV(m.T)
 				if !ok {
 					sfail("content() of non-map")
 				}
 				ref := e.toTerm(m)
-				s := sortOf(vt)
-				res = append(res, mk("MH", ArrSort(SI, ArrSort(SI, SB)), ref), mk("MV!"+s, ArrSort(SI, ArrSort(SI, s)), ref))
+				hn, vn, s := mapNames(kt, vt)
+				res = append(res, mk(hn, hasSort, ref), mk(vn, ArrSort(SI, ArrSort(SI, s)), ref))
 			case "calls":
 				key := exprKey(v.Args[0])
 				res = append(res, Loc{"N!" + key, SI, nil})
